@@ -21,6 +21,8 @@ the tree lock; nothing else in the module deletes. K2: every yield of iter_delet
 flag is set: detritus-named files under `detritus`, ignored files under `ignored`, everything else under `unknown`;
 with all flags false nothing is yielded. _filter_out_nested_controldirs keeps a directory only in the NotBranchError
 handler (a directory in which ControlDir.open succeeds — a nested branch — is dropped) and passes files through.
+Added while testing against seeded changes: Also: only NotBranchError means 'not a branch' in the nested-controldir
+filter; InventoryWorkingTree.extras lists a versioned directory only after the lstat-based osutils.isdir.
 Does not decide: correctness of WorkingTree.extras() / is_ignored().
 """
 DESTRUCTIVE = {"shutil.rmtree", "os.unlink", "os.remove", "os.rmdir", "osutils.delete_any", "osutils.rmtree", "delete_any", "rmtree", "os.removedirs", "shutil.move", "os.rename"}
